@@ -149,6 +149,10 @@ def decorators(n):
 _PATTERNS = ("{i}", "'s{i}'", "n{i}.a", "[p{i}, q{i}]", "[p{i}, *q{i}]", "{{'k{i}': p{i}}}", "{{'k{i}': p{i}, **q{i}}}", "C{i}(p{i}, a=q{i})", "{i} | -{i}", "(p{i}, q{i}) as r{i}", "None", "[*_, p{i}]")
 
 
+_LITERALS = ("0", "-1", "1.5", "-1.5", "2j", "-2j", "0 + 1j", "-0 - 1j", "1.5 - 2j", "-1.5 + 2.5j", "None", "True", "False", "'s'", "b's'", "'s' 't'", "'''s'''", "0x1f", "1_0", "n.a", "n.a.b")
+_SEQ_NESTED = ("p{i}", "()", "[]", "(q{i},)", "[q{i}]", "[(q{i},)]", "(q{i}, s{i})", "[[]]", "([q{i}],)", "*r{i}")
+
+
 def match_cases(n):
     pats = _PATTERNS if n >= 4 else _PATTERNS[:8]
     m = 2 if n < 4 else 3
@@ -173,6 +177,23 @@ def match_cases(n):
         yield f"match s:\n    case [{body}]:\n        b\n"
         yield f"match s:\n    case ({body},):\n        b\n"
         yield f"match s:\n    case {body},:\n        b\n"
+    # nested / empty / parenthesised sequence patterns
+    for pat in _seqs(_SEQ_NESTED, 1, 3 if n >= 4 else 2):
+        body = ", ".join(p.format(i=i) for i, p in enumerate(pat))
+        yield f"match s:\n    case [{body}]:\n        b\n"
+        yield f"match s:\n    case {body},:\n        b\n"
+        if len(pat) == 1:
+            yield f"match s:\n    case {body}:\n        b\n"
+            yield f"match s:\n    case C({body}, a={body}):\n        b\n"
+            yield f"match s:\n    case {{0: {body}}}:\n        b\n"
+    # every literal pattern, alone and as element of the composite patterns
+    for lit in _LITERALS:
+        yield f"match s:\n    case {lit}:\n        b\n"
+        yield f"match s:\n    case {lit} | {lit}:\n        b\n"
+        yield f"match s:\n    case [{lit}, x]:\n        b\n"
+        yield f"match s:\n    case C({lit}, a={lit}):\n        b\n"
+        yield f"match s:\n    case {lit} as x if g:\n        b\n"
+        yield f"match s:\n    case {{{lit}: x}}:\n        b\n"
     for pat in _seqs(("{i}: p{i}", "'k{i}': {i}", "n{i}.a: [q{i}]", "**r"), 1, min(n, 3)):
         if "**r" in pat[:-1]:
             continue
@@ -289,6 +310,9 @@ def ternaries(n):
 # ----------------------------------------------------------------------------- lists of things
 
 _ARGS = ("x{i}", "k{i}=y{i}", "*s{i}", "**d{i}")
+_ARG_EXPRS = ("*s or t", "**d or e", "*s if c else t", "**d if c else e", "x if c else y", "k=lambda: y", "*[x]", "**{'k': v}", "*s.a(b)[c]", "x := y", "not x",
+              "k=x or y", "lambda: x", "lambda *a, **k: x", "await x", "*await s", "k=(x for x in y)", "*(x for x in y)", "-x ** 2", "x == y", "k=x == y", "*s == t", "*s | t",
+              "**d | e", "*s + t", "k=yield", "(yield)", "x not in y", "*s and t", "k=x if c else y", "*-s", "**-d", "*s[0]", "**d.a", "*s()", "x @ y", "k=x @ y")
 
 
 def call_args(n):
@@ -298,6 +322,14 @@ def call_args(n):
         if len(pat) <= 3:
             yield f"f({body},)\n" if pat else "f()\n"
             yield f"class C({body}):\n    pass\n"
+    # argument *expressions*: what may follow `*`, `**`, `k=` or stand alone is a full expression
+    for e in _ARG_EXPRS:
+        yield f"f({e})\n"
+        yield f"f(a, {e})\n"
+        yield f"f({e}, k0=b)\n"
+        yield f"f({e}, **z)\n"
+        yield f"class C({e}):\n    pass\n"
+        yield f"@d({e})\ndef g():\n    pass\n"
     yield "f(x for x in y)\n"
     yield "f(a, (x for x in y), *b, k=(z for z in w), **c)\n"
     yield "f(a := 1, b)\n"
@@ -367,6 +399,18 @@ def displays(n):
         yield f"x = {body}\n"
 
 
+_TUPLE_BODIES = ("v0, v1", "v0, v1, v2", "v0, v1,", "v0,", "*s0, v1", "v0, *s1", "v0, *s1, v2", "*s0,", "(v0, v1), v2", "v0, (v1, v2)", "v0 if c else v1, v2", "lambda: v0, v1", "v0 or v1, not v2")
+_TUPLE_CONTEXTS = ("{b}", "x = {b}", "x = y = {b}", "x += {b}", "return {b}", "yield {b}", "x = yield {b}", "for t in {b}:\n    pass", "del {b}", "assert {b}", "x: T = {b}", "a[{b}]", "a[{b}] = w", "print({b})", "lambda: ({b})",
+                   "with {b}:\n    pass", "if {b}:\n    pass", "raise {b}", "x = [{b}]", "x = {{{b}}}", "x = ({b})", "for t in x: yield {b}", "await {b}", "match {b}:\n    case _:\n        pass", "[e for t in ({b})]", "f'{{{b}}}'", "(yield {b})", "x = {b} = w")
+
+
+def bare_tuples(n):
+    """Un-parenthesised expression lists: every list shape in every statement position that takes one."""
+    for ctx in _TUPLE_CONTEXTS:
+        for b in _TUPLE_BODIES:
+            yield ctx.format(b=b) + "\n"
+
+
 _TARGETS = ("t{i}", "t{i}.a", "t{i}[0]", "(t{i}, u{i})", "[t{i}, u{i}]", "t{i}, u{i}", "t{i}, *u{i}", "(t{i},)", "*t{i}, u{i}")
 
 
@@ -420,7 +464,7 @@ def type_params(n):
 
 # ----------------------------------------------------------------------------- literals
 
-_STRPARTS = ("'a{i}'", '"b{i}"', "r'c{i}\\n'", "'''d{i}'''", "f'{{e{i}}}'", "f\"g{i}{{h{i}!r}}\"", "u'i{i}'", "rf'{{j{i}}}\\n'", "''")
+_STRPARTS = ("'a{i}'", '"b{i}"', "r'c{i}\\n'", "'''d{i}'''", "f'{{e{i}}}'", "f\"g{i}{{h{i}!r}}\"", "u'i{i}'", "rf'{{j{i}}}\\n'", "''", "f''", "f'k{i}'")
 _BYTEPARTS = ("b'a{i}'", 'B"b{i}"', "rb'c{i}\\n'", "b'''d{i}'''", "Rb''")
 
 
@@ -432,6 +476,7 @@ def string_concat(n):
         if len(pat) >= 2:
             yield "".join(parts) + "\n"
             yield "x = (" + "\n     ".join(parts) + ")\n"
+            yield "x = " + " \\\n    ".join(parts) + "\n"
     if n < 4:
         for pat in _seqs(_STRPARTS[:6:2] + _STRPARTS[4:5], 3, 3):
             yield " ".join(p.format(i=i) for i, p in enumerate(pat)) + "\n"
@@ -440,6 +485,57 @@ def string_concat(n):
 
 
 _FPARTS = ("t{i}", "{{v{i}}}", "{{v{i}!r}}", "{{v{i}:>{i}}}", "{{v{i}:{{w{i}}}}}", "{{{{", "}}}}", "{{v{i}=}}", "{{v{i}!s:^{{w{i}}}.{{p{i}}}}}", "{{v{i}[{i}]}}", "{{v{i}.a}}", "{{-v{i} + 1}}")
+
+
+_FSPECIMENS = r"""
+f'\N{AMPERSAND}'
+f'a\N{GREEK CAPITAL LETTER DELTA}{v}'
+f'\N{LEFT CURLY BRACKET}{v}\N{RIGHT CURLY BRACKET}'
+f'\u2603{v}\x41\101\n\\'
+f'{v:\u2603}'
+f'{v:\x41>4}'
+fr'\''
+fr'\"'
+fr'\'\"'
+rf'\{v}'
+rf'\N{v}'
+f'{v}\''
+f"{v}\""
+f'{v!r}' f'{w!s}' f'{u!a}'
+f'' ''
+'' f''
+f''
+f'' f''
+f'{v}' '' f'{w}'
+f'{v:{w}{u}}'
+f'{v:{w}.{u}}'
+f'{v:a{w}b{u}c}'
+f'{v!r:{w}}'
+f'{ v = }'
+f'{v = !r:>{w}}'
+f'{v,}'
+f'{v, w}'
+f'{*v,}'
+f'{{{v}}}'
+f'{{}}{v}{{'
+f'{(lambda: 1)}'
+f'{(x:=1)}'
+f'{x!=y}'
+f'{x==y=}'
+f'{x>=y}'
+f'{x if y else z}'
+f'{"k"}'
+f'{d["k"]:{w}}'
+f"{d['k']}"
+f'{f"{v}"}'
+f'{v:{f"{w}"}}'
+f'{v!r}{w!s:>4}{u!a:{z}}'
+f'{v:%Y-%m-%d}'
+f'{v:{w}%}'
+f'{v:}'
+f'{v!r:}'
+F'{v}' R'\d' rF'{w}\d' Rf'\d{u}'
+""".strip().split("\n")
 
 
 def fstrings(n):
@@ -454,6 +550,11 @@ def fstrings(n):
     if n < 4:
         for pat in _seqs(_FPARTS[:5], 3, 3):
             yield "f'" + "".join(p.format(i=i) for i, p in enumerate(pat)) + "'\n"
+    # hand-picked specimens: escapes (\\N{...}, \\u, \\x) in literal text and format specs, raw f-strings with
+    # escaped quotes, empty pieces, multi-line replacement fields, `=` and conversions, nested quotes
+    for lit in _FSPECIMENS:
+        yield lit + "\n"
+        yield "x = " + lit + ", " + lit + "\n"
     # nesting of replacement fields: strings, dicts, lambdas, nested f-strings
     inner = "v"
     for d in range(1, min(n, 4) + 1):
@@ -524,6 +625,7 @@ FAMILIES = {
     "subscripts": subscripts,
     "displays": displays,
     "assignment-targets": assignments,
+    "expression-lists": bare_tuples,
     "imports": imports,
     "type-parameters": type_params,
     "string-concatenation": string_concat,
